@@ -881,6 +881,86 @@ func (w *vC10World) finishDialout() int {
 	}
 }
 
+// ---------- concurrent leave / transient update ----------
+
+// race lets one client change the transient data of the bystander's room n times
+// while another one joins and leaves it n times, then checks that the hub still
+// answers on every connection (a lock-order inversion between the session, room
+// and transient-data mutexes would leave the room and the hub's main loop stuck).
+func (w *vC10World) race(n int) string {
+	a, err := w.connectUser("racer-a")
+	if err != nil {
+		return "fail:" + vEnc(err.Error())
+	}
+	defer a.close()
+	b, err := w.connectUser("racer-b")
+	if err != nil {
+		return "fail:" + vEnc(err.Error())
+	}
+	defer b.close()
+	if err := w.join(a, vC10Room, "rs-ra"); err != nil {
+		return "fail:" + vEnc(err.Error())
+	}
+	drain := func(c *vC10Conn, stop chan struct{}) {
+		for {
+			select {
+			case <-c.ch:
+			case <-stop:
+				return
+			}
+		}
+	}
+	stop := make(chan struct{})
+	go drain(a, stop)
+	go drain(b, stop)
+	var wg sync.WaitGroup
+	wg.Add(2)
+	go func() {
+		defer wg.Done()
+		for i := 0; i < n; i++ {
+			a.send(websocket.TextMessage, []byte(fmt.Sprintf(`{"type":"transient","transient":{"type":"set","key":"race","value":%d}}`, i))) // nolint
+		}
+	}()
+	go func() {
+		defer wg.Done()
+		for i := 0; i < n; i++ {
+			b.send(websocket.TextMessage, []byte(`{"type":"room","room":{"roomid":"vroom","sessionid":"rs-rb"}}`)) // nolint
+			b.send(websocket.TextMessage, []byte(`{"type":"room","room":{"roomid":""}}`))                             // nolint
+		}
+	}()
+	wg.Wait()
+	// both connections answer a marker once they have worked through their queue
+	for _, c := range []*vC10Conn{a, b} {
+		c.send(websocket.TextMessage, []byte(`{"id":"vsync-race","type":"message","message":{"recipient":{"type":"vsync"},"data":1}}`)) // nolint
+	}
+	close(stop)
+	res := "ok"
+	for _, c := range []*vC10Conn{a, b} {
+		var kinds []string
+		if !w.readUntil(c, &kinds, 5*time.Second, func(kind string, m *ServerMessage, sync bool, sn int, tag string) bool {
+			return m != nil && m.Type == "error" && m.Id == "vsync-race"
+		}) {
+			res = "stuck"
+		}
+	}
+	// leave again so that the world is as before (apart from the transient key)
+	a.send(websocket.TextMessage, []byte(`{"type":"transient","transient":{"type":"remove","key":"race"}}`)) // nolint
+	a.send(websocket.TextMessage, []byte(`{"type":"bye"}`))                                                   // nolint
+	b.send(websocket.TextMessage, []byte(`{"type":"bye"}`))                                                   // nolint
+	var k []string
+	w.readUntil(a, &k, 2*time.Second, func(kind string, m *ServerMessage, sync bool, sn int, tag string) bool { return false })
+	w.readUntil(b, &k, 2*time.Second, func(kind string, m *ServerMessage, sync bool, sn int, tag string) bool { return false })
+	w.settle(a.pub)
+	w.settle(b.pub)
+	if res != "ok" {
+		return res
+	}
+	if _, _, ok := w.barrier(); !ok {
+		return "stuck"
+	}
+	return "ok"
+}
+
 // ---------- digest of hub tables ----------
 
 func (w *vC10World) digest() string {
